@@ -50,7 +50,10 @@ def definitions(tier: str, seed: int, want: dict[str, int]) -> list[dict]:
         defs.append({"name": f"core{i}", "kind": "core-rand", "ast": ast,
                      "tags": sorted(gen.tags_of(ast) | {"F_core"})})
     for i in range(want.get("edge", 0)):
-        ast, kind = gen.random_edge(rng, gen.EDGE_KINDS[i % len(gen.EDGE_KINDS)])
+        if i % 2:
+            ast, kind = gen.random_liberal(rng)
+        else:
+            ast, kind = gen.random_edge(rng, gen.EDGE_KINDS[(i // 2) % len(gen.EDGE_KINDS)])
         defs.append({"name": f"edge{i}", "kind": "edge", "ast": ast,
                      "tags": sorted(gen.tags_of(ast) | {"F_edge"})})
     return defs
